@@ -212,6 +212,17 @@ func (p Proxy) ServeHTTP(w http.ResponseWriter, r *http.Request) (int, error) {
 
 		proxy := host.ReverseProxy
 
+		// Every attempt works on its own copy of the upstream request: the
+		// director (base path, without) and the header rules applied below
+		// are not idempotent, so a retry must start from the pristine
+		// request again, not from the one a failed attempt already rewrote.
+		// Only the URL and the header map are copied; the body (rewound
+		// below) and the trailer map stay shared with the client request.
+		outreq := outreq.WithContext(outreq.Context())
+		urlCopy := *outreq.URL
+		outreq.URL = &urlCopy
+		outreq.Header = outreq.Header.Clone()
+
 		// a backend's name may contain more than just the host,
 		// so we parse it as a URL to try to isolate the host.
 		if nameURL, err := url.Parse(host.Name); err == nil {
